@@ -78,6 +78,8 @@ def classify(c):
         if lb_predicate(c["args"], c["go"]):
             return dict(layer="correspondence", what="LeastBytes: model and code differ (tie-break?) but every pick was a minimum", input=None)
         return dict(layer="property", what="LeastBytes picked a partition that did not have the fewest bytes", input=c)
+    if op == "hashconc":
+        return dict(layer="property", what="a key-hashing balancer with its default hasher, shared by concurrent callers, returned a partition that differs from the one the same call returns sequentially (not a pure function of key and partition count)", input=c)
     if op == "parts":
         return dict(layer="property", what="the partition list the Writer offers to its balancer was not 0..n-1 (read while another caller grew the process-wide cache)", input=c)
     if op == "lbconc":
@@ -97,6 +99,10 @@ def classify(c):
 
 def setup():
     L.go_build("c13")
+    try:
+        L.go_build("c13", race=True)
+    except L.Fail:
+        pass
     L.ocaml_build("c13")
 
 
@@ -142,6 +148,37 @@ def correspondence(ctx):
         if c["op"] == "lb" and not lb_predicate(c["args"], c["go"]):
             failures.append(dict(layer="property", what="LeastBytes picked a partition that did not have the fewest bytes",
                                  detail=c["line"][:500], input=dict(case=c["line"], go=c["go"])))
+    # the concurrent default-hasher family once more in a binary built with the race detector:
+    # two callers that share a hasher (or any other state of a balancer documented as safe for
+    # concurrent use) are reported whatever the timing; a wrong partition needs a rare preemption
+    race_note = None
+    try:
+        rexe = L.go_build("c13", race=True)
+        rrc, rout, rerr, rdt = L.sh([rexe, "-seed", str(ctx.seed), "-only", "hashconc"], timeout=600,
+                                    env=dict(os.environ, GORACE="halt_on_error=0 exitcode=66"))
+        nrace = rerr.count("WARNING: DATA RACE")
+        rcases = L.parse_cases(rout)
+        for c in rcases:
+            c["id"] = str(len(cases) + 1)
+            c["line"] = c["id"] + " " + c["op"] + " " + c["args"]
+            c["feats"] = (c.get("feats") or "") + ",race-detector-build"
+            cases.append(c)
+            if c["go"] != "ok":
+                f = classify(dict(c, model="ok"))
+                f["detail"] = json.dumps(dict(case=c["line"], go=c["go"]))
+                f["input"] = dict(case=c["line"], go=c["go"], model="ok")
+                failures.append(f)
+        if nrace:
+            rep = rerr[rerr.index("WARNING: DATA RACE"):][:3000]
+            failures.append(dict(layer="property", key=None,
+                                 what=f"balancers shared by concurrent callers: the Go race detector reports {nrace} data race(s) inside Balance "
+                                      "(state shared between calls: the result of one call depends on what the other callers hash at the same time)",
+                                 detail=rep[:1500],
+                                 input=dict(case="hashconc (race-detector build)", replay="build/bin/c13_race -seed %d -only hashconc" % ctx.seed, report=rep)))
+        elif rrc != 0:
+            failures.append(dict(layer="correspondence", what="race-detector build of harness/cmd/c13 -only hashconc failed to run", detail=(rout[-500:] + rerr[-1500:]), input=None))
+    except L.Fail as f:
+        race_note = "race-detector build of harness/cmd/c13 unavailable: " + str(getattr(f, "detail", ""))[-300:]
     ev, dn, hist = L.coverage_counts(cases, trivial_feats=("", "len%4=0,lo", "len%4=0,lo,n<64", "chunk=1,fresh", "changes=0"))
     return dict(evaluations=ev, distinct_nontrivial=dn, hist=hist,
                 rule="cases from one PRNG (VERIF_SEED): keys of length 0..300 (nil/empty/ascii/high-bit/00-ff/random), "
@@ -150,7 +187,7 @@ def correspondence(ctx):
                      "concurrent G-goroutine runs; a case is non-trivial when its feature vector is not the happy-path default "
                      "(4-aligned ascii key, chunk 1 fresh counter, no partition change); distinct by hash of op+args",
                 samples=[c["line"][:300] + " | " + c["go"][:100] for c in cases[:3] + cases[len(cases)//2:len(cases)//2+3] + cases[-2:]],
-                failures=failures)
+                failures=failures, notes=[race_note] if race_note else [])
 
 
 def search(ctx, violations):
